@@ -35,7 +35,7 @@ TraceInit ==
     /\ l = 1 /\ ph = "act"
     /\ sc = [exists |-> [r \in Req |-> FALSE], hasMe |-> [r \in Req |-> FALSE], raws |-> [r \in Req |-> <<>>],
              exec |-> [r \in Req |-> <<>>], fReq |-> [r \in Req |-> 0], fHash |-> [d \in DS |-> 0],
-             fData |-> [d \in DS |-> 0], len |-> [d \in DS |-> 1000], cached |-> [d \in DS |-> TRUE]]
+             fData |-> [d \in DS |-> 0], len |-> [d \in DS |-> 1000], cached |-> [d \in DS |-> TRUE], dmg |-> [d \in DS |-> FALSE]]
     /\ Init0 /\ InitCache
     /\ TLCSet(1, 0) /\ TLCSet(2, 0)
 
@@ -49,7 +49,8 @@ ScenarioOf(c) ==
      fHash  |-> [d \in DS |-> c.ds[d].fHash],
      fData  |-> [d \in DS |-> c.ds[d].fData],
      len    |-> [d \in DS |-> c.ds[d].len],
-     cached |-> [d \in DS |-> c.ds[d].cached]]
+     cached |-> [d \in DS |-> c.ds[d].cached],
+     dmg    |-> [d \in DS |-> c.ds[d].dmg]]
 
 TReset ==
     LET s == ScenarioOf(Line.c) IN
